@@ -16,7 +16,7 @@ import threading
 import vlib
 import langlib
 
-NAMED = {"MyInt", "MyStr", "MyFloat", "MyBool", "Duration", "MyList", "MyMap", "Rec"}
+NAMED = {"MyInt", "MyStr", "MyFloat", "MyBool", "Duration", "MyU64", "MyU8", "MyI8", "MyF32", "MyList", "MyMap", "Rec"}
 JVM = {"JAVA_TOOL_OPTIONS": "-XX:ParallelGCThreads=2"}  # many single-worker TLC processes run side by side
 LINE = re.compile(r'^<<"(MISMATCH|SOFT|HARNESS)", (-?\d+), "(.*)">>$')
 
@@ -137,7 +137,8 @@ def signature(o, what):
 INT_RANGE = {"int8": (-2**7, 2**7 - 1), "int16": (-2**15, 2**15 - 1), "int32": (-2**31, 2**31 - 1),
              "int64": (-2**63, 2**63 - 1), "int": (-2**63, 2**63 - 1), "uint8": (0, 2**8 - 1), "uint16": (0, 2**16 - 1),
              "uint32": (0, 2**32 - 1), "uint64": (0, 2**64 - 1), "uint": (0, 2**64 - 1),
-             "MyInt": (-2**63, 2**63 - 1), "Duration": (-2**63, 2**63 - 1)}
+             "MyInt": (-2**63, 2**63 - 1), "Duration": (-2**63, 2**63 - 1),
+             "MyU64": (0, 2**64 - 1), "MyU8": (0, 2**8 - 1), "MyI8": (-2**7, 2**7 - 1)}
 
 
 def unrepresentable_why(chain, w):
